@@ -206,6 +206,22 @@ TodoOps == {OpGetParam("p1"), OpGetParam("p2"), OpGetParam("p4"), OpGet("s1"), O
             OpOverrideParam("p1", "int", "9"), OpOverrideParam("p2", "string", "ov"),
             OpOverrideService("s2", "NewZ", <<ARef("p1")>>), OpOverrideService("s1", "NewD", <<ASvc("s2")>>)}
 
+(* "todom": the same configurations with every service re-opened by a later file that adds a tag and does not repeat   *)
+(* `todo` (an attribute the later file does not mention is kept): still placeholders                                     *)
+TodoOpsM == {OpGetParam("p1"), OpGet("s1"), OpGet("s2"), OpOverrideService("s2", "NewZ", <<ARef("p1")>>), OpOverrideService("s1", "NewD", <<ASvc("s2")>>)}
+(* Family "lazy" (C15): parameters backed by the environment are evaluated at first use with the environment of that   *)
+(* moment, cached on success only; the program changes its environment between the uses                                  *)
+LazyCfg(withDefaults) ==
+  [EmptyCfg EXCEPT !.meta = BaseMeta,
+     !.params = (   "e1" :> APat(<<CFn("env", IF withDefaults THEN "\"VERIF_E1\", \"dflt\"" ELSE "\"VERIF_E1\"")>>)
+                 @@ "e2" :> APat(<<CFn("envInt", IF withDefaults THEN "\"VERIF_E2\", 77" ELSE "\"VERIF_E2\"")>>)
+                 @@ "e3" :> APat(<<CRef("e1"), CText(":"), CRef("e2")>>)
+                 @@ "e4" :> APat(<<CText("direct-"), CFn("env", "\"VERIF_E1\"")>>)),
+     !.services = (   "s1" :> CtorSvc("fx.NewA", <<ARef("e1")>>)
+                   @@ "s2" :> CtorSvc("fx.NewB", <<ARef("e3"), ASvc("s1"), APat(<<CFn("envInt", "\"VERIF_E2\"")>>)>>))]
+LazyOps == {OpSetEnv("VERIF_E1", "a"), OpSetEnv("VERIF_E1", "b"), OpSetEnv("VERIF_E2", "8080"), OpSetEnv("VERIF_E2", "0x10"), OpUnsetEnv("VERIF_E1"),
+            OpGetParam("e1"), OpGetParam("e2"), OpGetParam("e3"), OpGetParam("e4"), OpGet("s1"), OpGet("s2"), OpOverrideParam("e1", "string", "ov")}
+
 -----------------------------------------------------------------------------
 (* Family "api" (C13): getter x type form x must_getter x default_must_getter x meta names *)
 (* x what the second service does (own getter, the same getter, todo with a getter).       *)
@@ -377,6 +393,7 @@ Configs ==
     [] Family = "scope3" -> ScopeCfgs({"s1", "s2", "s3"})
     [] Family = "scopeg" -> ScopeCfgsG({"s1", "s2"})
     [] Family = "todo"   -> TodoCfgs(0)
+    [] Family = "lazy"   -> {LazyCfg(FALSE), LazyCfg(TRUE)}
     [] Family = "lits"   -> LitCfgs(0)
     [] Family = "forms"  -> FormCfgs(0)
     [] Family \in {"api", "apiq"} -> ApiCfgs(0)
@@ -387,6 +404,7 @@ FileSets ==
   CASE Family \in {"tags", "tagsq"} -> {f \in TagFileSets(0) : OutputAccepted(MergeAll(f), NoFl)}
     [] Family \in {"api", "apiq"} -> {<<c>> : c \in Configs} \cup ApiFileSets(0)
     [] Family = "scope2m" -> {<<c, ReopenAll(c)>> : c \in ScopeCfgs({"s1", "s2"})}
+    [] Family = "todom" -> {<<c, ReopenAll(c)>> : c \in {x \in TodoCfgs(0) : IsTodo(x.services["s1"]) \/ IsTodo(x.services["s2"])}}
     [] OTHER -> {<<c>> : c \in Configs}
 IsImports == Family \in {"imports", "importsq"}
 
@@ -404,6 +422,8 @@ Alphabet(c) ==
     [] Family = "scope2m" -> ScopeOps({"s1", "s2"})
     [] Family = "scopeg" -> ScopeOpsG
     [] Family = "todo"   -> TodoOps
+    [] Family = "todom"  -> TodoOpsM
+    [] Family = "lazy"   -> LazyOps
     [] OTHER -> {}
 
 Bound == IF Scripted THEN Len(Script) ELSE MaxHist
@@ -454,6 +474,12 @@ TodoFails ==
      /\ (o.op = "GetParam" /\ cfg0.params[o.id].k = "pat" /\ cfg0.params[o.id].ch[1].k = "fn"
           /\ cfg0.params[o.id].ch[1].v = "todo" /\ ~overridden) => ~hist[i].ok
 LazyParams == hist = <<>> => st.cnt = Empty /\ st.pcache = Empty
+(* an evaluation that failed for want of a variable is not remembered: once the variable is set, the next use succeeds *)
+NotCachedOnFailure ==
+  \A i, j \in 1..Len(hist) :
+     (i < j /\ hist[i].op = OpGetParam("e4") /\ ~hist[i].ok /\ hist[j].op = OpGetParam("e4")
+      /\ (\E k \in (i + 1)..(j - 1) : hist[k].op.op = "SetEnv" /\ hist[k].op.id = "VERIF_E1")
+      /\ ~(\E k \in (i + 1)..(j - 1) : hist[k].op.op = "UnsetEnv")) => hist[j].ok
 
 (* a shared service has at most one instance for the life of the container               *)
 ApiNoCollision == NoCollision(cfg0)
